@@ -564,7 +564,7 @@ def built_paths(ctx, b, nb_ids=None):
     return out
 
 
-@rule('GC5', ['C01', 'C02', 'C06', 'C17'], floor=1, template='provenance+pairing')
+@rule('GC5', ['C01', 'C02', 'C06', 'C17', 'C12'], floor=1, template='provenance+pairing')
 def gc5(ctx):
     """What is unlinked is exactly the file that was just popped from the tracker."""
     nb = {b.id for b in name_builders(ctx)}
